@@ -580,7 +580,9 @@ bool Parser::parse_patch_header(Patch& patch, PatchHeaderInfo& header_info, int 
         // A line of the first hunk of a unified diff may itself look like a file header (such as the removal of
         // a line starting with "-- "), so this needs to be looked for before anything else.
         if ((patch.format == Format::Unknown || patch.format == Format::Unified) && last_line_looks_like == Format::Unified
-            && (starts_with(line, "+") || starts_with(line, "-") || starts_with(line, " "))) {
+            && (starts_with(line, "+") || starts_with(line, "-") || starts_with(line, " ")
+                // NOTE: an unchanged line which is empty may be given as an empty line. That takes a hunk which has room for an unchanged line.
+                || (line.empty() && hunk.old_file_range.number_of_lines > 0 && hunk.new_file_range.number_of_lines > 0))) {
             // NOTE: We need to swap back the old and new lines. The old line was parsed as a new
             //       line below since both context patches and unified use '---' for a path
             //       header, but mean different things. Implement this in the simplest way (instead
